@@ -557,7 +557,7 @@ def run(ctx):
             case(8, n, 0, o["d"], "", {"fn": "sec2dhms", "n": n})
             case(9, n, 0, o["h"], "", {"fn": "sec2hms", "n": n})
             dh_texts.append((o["d"], o["h"]))
-            if o["d"] != ref_sec2dhms(n) or o["h"] != ref_sec2hms(n):  # every int64, -2**63 included (repaired c11aaec5f)
+            if o["d"] != ref_sec2dhms(n) or o["h"] != ref_sec2hms(n):  # every int64, -2**63 included (repaired 9852efdc5)
                 bad("dhms-roundtrip-minint64" if n == -2 ** 63 else "sec2dhms-text", input=n, observed=[o["d"], o["h"]], expected=[ref_sec2dhms(n), ref_sec2hms(n)],
                     how="mlr -n put 'end{print sec2dhms(%d) . \" \" . sec2hms(%d)}'" % (n, n))
             if o["bd"] != ns or o["bh"] != ns:
